@@ -1234,6 +1234,17 @@ def m_map_iter(I, a, t, c):
     return Agg('iter', 0, [[Agg('tuple', 0, [RefV(Cell(kv, 'mapkey')), RefV(cell)]) for kv, cell in m.d.values()], 0])
 
 
+@model('hashbrown::HashMap::values_mut', 'hashbrown::HashMap::values')
+def m_map_values(I, a, t, c):
+    m = I.load(a[0])
+    return Agg('iter', 0, [[RefV(cell) for kv, cell in m.d.values()], 0])
+
+
+@model('hashbrown::HashMap::iter', 'hashbrown::HashMap::iter_mut')
+def m_map_iter2(I, a, t, c):
+    return m_map_iter(I, a, t, c)
+
+
 @model('prim::BorrowMut::borrow_mut', 'prim::Borrow::borrow', '<u64 as std::borrow::BorrowMut<u64>>::borrow_mut', '<T as std::borrow::BorrowMut<T>>::borrow_mut',
        '<T as std::borrow::Borrow<T>>::borrow')
 def m_borrow_mut(I, a, t, c):
